@@ -1,4 +1,4 @@
-import FluteModel.Lemmas.SchedClock
+import FluteModel.Lemmas.SchedCount
 /-
   C14 - Timing.  Time is `Nat` nanoseconds supplied by the caller with every `read` / `publish`; the one
   floating point computation (`packet_transmission_tick = duration.div_f64(n)`) is an input of the transfer
@@ -136,14 +136,75 @@ theorem pacing_progress (cfg : Cfg) (tbl : List Nat) (ops : List Op) (pre post :
   obtain ⟨h1, h2⟩ := read_due cfg tbl ops pre post q j c f now ticks hsess hjs hf hg hs hlt
   exact ⟨h1, fun p t i b e => prio_le_of_sorted cfg tbl ops pre post q hsorted hsess p (h2 p t i b e)⟩
 
+/-- Pacing progress, naming the packet: after every operation history, let slot `j` of queue `q` hold a transfer `c`
+    whose pacing gate is open at `now` and which still has packets.  Then `read(now)` returns
+    (1) an FDT packet (C11: FDT first), or (2) an object packet of a queue polled before `q` (higher priority), or
+    (3) a packet of `q`: `c`'s own packet, or - multiplexed queue - the packet of a peer slot polled before `j`
+    (`Props.C13.round_robin_partial`: the index then moves strictly closer).  It never returns `None`.
+    And an object packet it returns carries the NEXT index of its transfer: `i` = number of packets of that transfer
+    already in the trace (`(LM.run t past).sent`). -/
+theorem pacing_progress_named (cfg : Cfg) (tbl : List Nat) (ops : List Op) (pre post : List QSess) (q : QSess)
+    (j : Nat) (c : Cur) (f : FileDesc) (now : Nat) (ticks : List (Nat × Nat))
+    (hsess : (run (init cfg tbl) ops).sessions = pre ++ q :: post)
+    (hjs : q.slots[j]? = some (some c)) (hf : getF (run (init cfg tbl) ops).objs c.key = some f)
+    (hdue : ∀ ts, f.info.nextTs = some ts → ts ≤ now) (hs : c.enc.stopped = false) (hlt : c.enc.sent < f.nPk) :
+    (∃ k id i, (read (run (init cfg tbl) ops) now ticks).2 = Out.fdt k id i) ∨
+    (∃ p t i b, (read (run (init cfg tbl) ops) now ticks).2 = Out.pkt p t i b ∧
+      (p ∈ pre.map (fun x => x.prio) ∨ (p = q.prio ∧ (t = c.key ∨ q.slots.length ≠ 1))) ∧
+      ∃ past, (read (run (init cfg tbl) ops) now ticks).1.log = Ev.pkt now p t i b :: past ∧
+        i = (LM.run t past).sent) := by
+  have hg : gateBlocked f now = false := by
+    unfold gateBlocked
+    cases hn : f.info.nextTs with
+    | none => rfl
+    | some ts => have := hdue ts hn; simp; omega
+  have hne := (read_due cfg tbl ops pre post q j c f now ticks hsess hjs hf hg hs hlt).1
+  have hrr := read_rr cfg tbl ops pre post q j c f now ticks hsess hjs hf hg hs hlt
+  have hnh := read_no_hang (run (init cfg tbl) ops) now ticks
+  have hidx : q.index < q.slots.length := run_idx cfg tbl ops q (by rw [hsess]; simp)
+  have hj : j < q.slots.length := by
+    rcases Nat.lt_or_ge j q.slots.length with h | h
+    · exact h
+    · rw [List.getElem?_eq_none h] at hjs; cases hjs
+  cases hout : (read (run (init cfg tbl) ops) now ticks).2 with
+  | none => exact absurd hout hne
+  | hang => exact absurd hout hnh
+  | fdt k id i => exact Or.inl ⟨k, id, i, rfl⟩
+  | pkt p t i b =>
+    right
+    refine ⟨p, t, i, b, rfl, ?_, ?_⟩
+    · rcases hrr p t i b hout with h | ⟨h1, h2⟩
+      · exact Or.inl h
+      · refine Or.inr ⟨h1, ?_⟩
+        rcases h2 with h3 | ⟨_, pre', q', _, _, _, _, e5, _⟩
+        · exact Or.inl h3
+        · right
+          intro hn1
+          rw [hn1] at e5 hidx hj
+          unfold rrDist at e5
+          split at e5 <;> split at e5 <;> omega
+    · have h1 := read_out_log (run (init cfg tbl) ops) now ticks
+      rw [hout] at h1
+      obtain ⟨new, e, _⟩ := h1
+      have e2 : trace cfg tbl (ops ++ [.read now ticks]) = (read (run (init cfg tbl) ops) now ticks).1.log := by
+        unfold trace run; rw [List.foldl_append]; rfl
+      have hc := Flute.Sched.life_run cfg tbl (ops ++ [.read now ticks])
+      have hchk := hc.2.checked t
+      have e3 : (run (init cfg tbl) (ops ++ [.read now ticks])).log = Ev.pkt now p t i b :: (new ++ (run (init cfg tbl) ops).log) := by
+        have : (run (init cfg tbl) (ops ++ [.read now ticks])).log = trace cfg tbl (ops ++ [.read now ticks]) := rfl
+        rw [this, e2, e]
+      rw [e3] at hchk
+      exact ⟨_, e, (hchk.2 rfl).2.1⟩
+
 /-- Degenerate inputs do not stall a poll: for any configuration and history (incl. empty objects with a target
     duration / deadline - repaired defect D4: not paced -, deadlines in the past, zero delays / intervals /
     durations, `fdt_duration = 0`) the `loop` of `SenderSession::run` never exhausts its fuel: `read` returns.
     A deadline in the past gives tick 0, which never blocks (`pacing_lower_bound` degenerates to `start ≤ now`); a
     zero delay needs the clock to advance by 1 ns (`now - end > 0`).  (That REPEATED reads reach `None` is C12's
     `read_terminates`.)
-    NO-CRASH IS NOT A THEOREM: the model executes no partial arithmetic - times and counters are unbounded `Nat`,
-    `State.panic` is assigned by no transition - so a statement `panic = none` would be vacuous and is not made.
+    NO-CRASH: `State.panic` is assigned by no transition of the model (times and counters are unbounded `Nat`), so a
+    statement `panic = none` would be vacuous and is not made; what can be proved about the arithmetic is
+    `no_counter_overflow` below.
     The crashes the scheduler path had were found by review / replay and the correspondence run and repaired in the
     Rust code: `div_f64(0)` for an empty paced object (D4), `fdtid + 1` at `fdt_start_id = u32::MAX`,
     `interleave_blocks = 0`, `(ntp >> 32) + fdt_duration` for `fdt_duration` near `Duration::MAX`, and
@@ -155,6 +216,31 @@ theorem pacing_progress (cfg : Cfg) (tbl : List Nat) (ops : List Op) (pre post :
 theorem degenerate_safe (cfg : Cfg) (tbl : List Nat) (ops : List Op) :
     ∀ now ticks, (read (run (init cfg tbl) ops) now ticks).2 ≠ Out.hang :=
   fun now ticks => read_no_hang _ now ticks
+
+/-- No-crash, the part that IS a theorem: the integer arithmetic of the scheduler path that can overflow is the
+    transfer bookkeeping - `transfer_count += 1` (u32, `TransferInfo::done`), `transfer_count + 1` (u32,
+    `FileDesc::is_last_transfer`) and `total_nb_transfer += 1` (u64).  After every operation history, for every
+    object and every FDT instance, `transfer_count ≤ total_nb_transfer ≤ number of trace entries` (every completed
+    transfer appended its Stop event; every API call appends at least one entry).  Hence in a history with fewer
+    than 2^32 - 1 trace entries none of these additions overflows.
+    The other partial operations of that path are total in the Rust code by construction and have no counterpart
+    in the model (the FDT content is abstract): `saturating_add` for the FDT Expires (repair sched-5),
+    `checked_add` + saturation for `CacheControl::Expires` (sched-6), `wrapping_add` + mask for the FDT instance id
+    (sched-1), `checked_add` in `TransferInfo::tick`, `duration_since(..).unwrap_or_default()`, `div_f64(n)` with
+    `n ≥ 1` (D4). -/
+theorem no_counter_overflow (cfg : Cfg) (tbl : List Nat) (ops : List Op)
+    (hlen : (trace cfg tbl ops).length < 2 ^ 32 - 1) :
+    (∀ f ∈ (run (init cfg tbl) ops).objs, f.info.count + 1 < 2 ^ 32 ∧ f.info.total + 1 < 2 ^ 64) ∧
+    (∀ f ∈ (run (init cfg tbl) ops).fdts, f.info.count + 1 < 2 ^ 32 ∧ f.info.total + 1 < 2 ^ 64) := by
+  have h := count_run cfg tbl ops
+  have hl : (run (init cfg tbl) ops).log.length < 2 ^ 32 - 1 := hlen
+  constructor
+  · intro f hf
+    obtain ⟨h1, h2⟩ := h.1 f hf
+    constructor <;> omega
+  · intro f hf
+    obtain ⟨h1, h2⟩ := h.2 f hf
+    constructor <;> omega
 
 /-! F14 (finding, documented behaviour): with `max_transfer_count = 2` and a carousel delay the literal clause
     fails - the second transfer of a burst starts at the very instant the first one ended. -/
